@@ -27,7 +27,7 @@ import math
 from mc import oracle as O
 from mc.c15_util import ProtocolError, ScriptedRNG, ident
 
-__all__ = ["Rng", "simulated_brownian_scale", "ProtocolError", "recover_partition", "lengths", "alias_edges", "as_inc",
+__all__ = ["Rng", "simulated_brownian_scale", "ProtocolError", "recover_partition", "lengths", "alias_edges", "alias_interior", "as_inc",
            "target_law", "single_entry"]
 
 JUMPS_PER_INTERVAL = 2
@@ -188,6 +188,22 @@ def alias_edges(K, hi=1.0):
     for x in range(1, K):
         e = hi * x / K
         out += [e, math.nextafter(e, math.inf), math.nextafter(e, -math.inf), math.nextafter(math.nextafter(e, math.inf), math.inf)]
+    return out
+
+
+def alias_interior(sampler, hi=1.0):
+    """one probe inside the alias piece of every column of an alias table: column x hands [x/K, (x+q_x)/K) to state x and the
+    rest of the column, up to (x+1)/K, to its alias - a piece that may be far thinner than the dyadic sweep and whose two
+    neighbours may be the same state (then no pair of agreeing probes would reveal it).  The table (public attributes q, K)
+    is read only to PLACE probes; the partition itself is still recovered from the sampler's answers."""
+    q, K = getattr(sampler, "q", None), getattr(sampler, "K", None)
+    if q is None or not K:
+        return []
+    out = []
+    for x in range(int(K)):
+        qx = float(q[x])
+        if 0.0 <= qx < 1.0:
+            out.append(hi * (x + 0.5 * (qx + 1.0)) / K)
     return out
 
 
